@@ -80,6 +80,18 @@ Section C03.
   Theorem C03_length_check_is_a_path_filter (p : list (pos * D)) : NoDup (map fst p) ->
     forall k, checked okD (path_get p) k = path_get (wf_path okD p) k.
   Proof. exact (checked_is_wf_path D okD p). Qed.
+
+  (* what the check buys: run on ANY audit path, the checked verifier only ever hashes children that satisfy okD - given
+     that the hash function's own outputs do (SHA-256: Properties/C03_pinned_refuted.v, C03_sha_verifier_hashes_32_byte_children).
+     interp_tr is the verifier's interpreter with the list of hash inputs it forms. *)
+  Theorem C03_traced_interpreter_is_the_interpreter (c : cache D) (o : op E) :
+    option_map fst (interp_tr D E V H c o) = interp D E V H c o.
+  Proof. exact (interp_tr_fst D E V H c o). Qed.
+  Theorem C03_checked_verifier_hashes_wellformed_children (c : cache D) (o : op E) r tr :
+    (forall x, okD (H x) = true) ->
+    interp_tr D E V H (checked okD c) o = Some (r, tr) ->
+    okD r = true /\ Forall (fun x => wf_children D E V okD x = true) tr.
+  Proof. exact (fun Hok => checked_inputs_wf D E V H okD Hok c o r tr). Qed.
 End C03.
 
 (* the reason for the check: bytes moved between two neighbouring entries hash alike, under every hash function.
@@ -111,3 +123,5 @@ Print Assumptions C03_reject_altered_entry_length_checked.
 Print Assumptions C03_wrong_length_entry_is_missing.
 Print Assumptions C03_length_check_is_a_path_filter.
 Print Assumptions C03_moved_bytes_hash_alike.
+Print Assumptions C03_traced_interpreter_is_the_interpreter.
+Print Assumptions C03_checked_verifier_hashes_wellformed_children.
